@@ -86,6 +86,10 @@ class C21(Prop):
             break
           if self.compare(run, "op %d %s" % (idx, op), live_spy, live_trace, stats) is False:
             break
+      except spytrace.Desync:
+        # the handlers' actions ran in another order / number than the model predicts (a chart
+        # whose exit action queries the chart mid-transition, C01/C02 domain): not comparable
+        stats.exclude("desync_actions_or_capacity")
       except HarnessBound as e:
         raise PropertyViolation("did not terminate: %s" % e, "C21:hang")
       except PropertyViolation:
